@@ -174,3 +174,94 @@ fn c08_rpc_error_reader() {
     kani::cover!(res.is_err(), "rejected");
     std::mem::forget(res);
 }
+
+/// C08 (inner reader, element structure enumerated): the real `rpc::Error::read_xml` on an
+/// `<rpc-error>` whose mandatory children appear in each of the 6 orders (all present), with
+/// each single child missing, and with none - 10 layouts walked by a concrete loop -, the
+/// severity text symbolic over {error, warning, " error ", junk}.  `Ok` iff all three are
+/// present and the severity is recognised; the severity reported is the text's; the reader stops
+/// right after `</rpc-error>`.  (The fully symbolic version above runs out of memory.)
+#[kani::proof]
+#[kani::unwind(12)]
+fn c08_rpc_error_reader_layouts() {
+    use_reply_tables();
+    // (order permutation, presence mask)
+    const LAYOUTS: [([usize; 3], [bool; 3]); 10] = [
+        ([0, 1, 2], [true, true, true]),
+        ([0, 2, 1], [true, true, true]),
+        ([1, 0, 2], [true, true, true]),
+        ([1, 2, 0], [true, true, true]),
+        ([2, 0, 1], [true, true, true]),
+        ([2, 1, 0], [true, true, true]),
+        ([0, 1, 2], [false, true, true]),
+        ([0, 1, 2], [true, false, true]),
+        ([0, 1, 2], [true, true, false]),
+        ([0, 1, 2], [false, false, false]),
+    ];
+    let mut accepted = false;
+    let mut rejected = false;
+    let mut l = 0;
+    while l < 10 {
+        let (perm, has) = LAYOUTS[l];
+        let sev_text: u8 = kani::any();
+        kani::assume(sev_text < 4);
+        let sev_cell = match sev_text {
+            0 => Cell::text(t::ERROR),
+            1 => Cell::text(t::WARNING),
+            2 => Cell::text(t::ERROR_PADDED),
+            _ => Cell::text(t::X),
+        };
+        let mut tp = Tape::EMPTY;
+        let mut k = 0;
+        while k < 3 {
+            let which = perm[k];
+            if has[which] {
+                match which {
+                    0 => {
+                        tp.push(TYPE_START);
+                        tp.push(Cell::text(t::PROTOCOL));
+                        tp.push(TYPE_END);
+                    }
+                    1 => {
+                        tp.push(TAG_START);
+                        tp.push(Cell::text(t::OPERATION_FAILED));
+                        tp.push(TAG_END);
+                    }
+                    _ => {
+                        tp.push(SEV_START);
+                        tp.push(sev_cell);
+                        tp.push(SEV_END);
+                    }
+                }
+            }
+            k += 1;
+        }
+        tp.push(ERR_END);
+        tp.push(cells::OK);
+        tape::register(0, tp);
+        let mut reader = NsReader::from_str(tape::input_for(0));
+        let _ = reader.trim_text(true);
+        let start = quick_xml::events::BytesStart::from_id(n::RPC_ERROR);
+        let res = Error::read_xml(&mut reader, &start);
+        let well_formed = has[0] && has[1] && has[2] && sev_text < 3;
+        match &res {
+            Ok(e) => {
+                assert!(well_formed, "C08 rpc-error: an element without its mandatory children (or with a junk severity) was accepted");
+                let want = if sev_text == 1 { SEV_WARNING } else { SEV_ERROR };
+                assert!(severity_code(e) == want, "C08 rpc-error: severity differs from the element's error-severity text");
+                match reader.read_event() {
+                    Ok(quick_xml::events::Event::Empty(_)) => {}
+                    _ => assert!(false, "C08 rpc-error: reader did not stop after the end tag"),
+                }
+                accepted = true;
+            }
+            Err(_) => {
+                assert!(!well_formed, "C08 rpc-error: a well-formed element was rejected");
+                rejected = true;
+            }
+        }
+        std::mem::forget(res);
+        l += 1;
+    }
+    kani::cover!(accepted && rejected, "elements are accepted and rejected");
+}
